@@ -1,9 +1,12 @@
 """C01 — ECDSA: signing complete, verification sound, signatures canonical (buidl/pecc.py)."""
 import hashlib
 import hmac as _hmac
+import signal
 
 from buidl import pecc
 from buidl.pecc import PrivateKey, S256Point, Signature
+
+from vp.core import ImplTimeout
 
 from . import ecref
 from .ecref import N, P
@@ -14,7 +17,13 @@ RULE = ("Secrets over {1, 2, n-1, n-2, 2^128 +-1, 2^255 +-1} and digests over {0
         "(full cross product) plus random pairs; out-of-range secrets/digests for the error branches; every emitted "
         "signature is DER-encoded, re-parsed, and mutated by the catalogue z+-1, other key, r+-1, s+-1, r/s in "
         "{0, n, 2^256-1}, r+n, s+n, n-s; chosen-nonce signatures whose raw s lies in (n/2, 2^255]; tuples whose "
-        "R has x >= n; malformed DER: every truncation, single byte flips, wrong length bytes.")
+        "R has x >= n; malformed DER: every truncation, single byte flips, wrong length bytes.  Constructed "
+        "boundary tuples (public key solved from a chosen R, r, s, z): r in {1, 2, 3, 4, ...} with x(R) = r and "
+        "x(R) = r + n, r in {n-2, n-3, ...}, x(R) next to p, s in {1, 2, n-1, n-2, (n-1)/2, (n+1)/2}, R at infinity, "
+        "u1*G = u2*Q, z = 0, public keys with x in {1, 2, 3}, x next to p, G, -G, 2G (tuples forged from u1, u2); "
+        "chosen-nonce raw s on both sides of n/2, of 1 and of n; DER integers of every byte length 1..32 x leading "
+        "byte {01, 7e, 7f, 80, 81, ff} x second byte {00, 7f, 80, ff}; RFC 6979 with an HMAC whose V outputs are "
+        "replaced by {0, 1, n-1, n, n+1, 2^256-1} so that every candidate comparison and the retry step run.")
 TRUSTED = ["hashlib/hmac (HMAC-SHA256 is a universally quantified function in the RFC 6979 theorem)",
            "CPython pow(b, e, m) — modelled by square-and-multiply (Model/Pecc.v modpow)",
            "harness reference implementation props/ecref.py (independent ECDSA/RFC 6979/DER on Python ints) — "
@@ -25,6 +34,9 @@ ASSUMPTIONS = ["scalar_laws secp256k1 (group axioms, order n, n prime) — expli
                "nor retries; no input exhibiting them can be constructed (probability < 2^-127 per signature)"]
 
 TWO256 = 2 ** 256
+# secp256k1 scalar multiplications do not finish under vm_compute inside Coq in the self-check's time limit (the
+# whole self-check was skipped by its timeout): the curve functions are left to the extracted driver only
+VM_SKIP = {"sign", "sign_k", "pubkey", "verify", "ecdsa_ok"}
 
 
 def _mk_key(d):
@@ -99,19 +111,75 @@ def _point(pv):
 _vcache = {}
 
 
-def i_verify(pv, z, r, s):
+def _verify_raw(pv, z, r, s):
+    """("ok", answer) | ("ctor", exception of the S256Point constructor) | ("verify", exception of verify)"""
     key = (tuple(pv), z, r, s)
     if key not in _vcache:
         if len(_vcache) > 20000:
             _vcache.clear()
         try:
-            _vcache[key] = _point(pv).verify(z, Signature(r, s))
+            pt = _point(pv)
+        except ImplTimeout:
+            raise
         except Exception as e:  # noqa
-            _vcache[key] = e
-    v = _vcache[key]
-    if isinstance(v, Exception):
+            _vcache[key] = ("ctor", e)
+            return _vcache[key]
+        try:
+            _vcache[key] = ("ok", pt.verify(z, Signature(r, s)))
+        except ImplTimeout:
+            raise
+        except Exception as e:  # noqa
+            _vcache[key] = ("verify", e)
+    return _vcache[key]
+
+
+def i_verify(pv, z, r, s):
+    tag, v = _verify_raw(pv, z, r, s)
+    if tag != "ok":
         raise v
     return v
+
+
+# ---- an HMAC whose V outputs (32-byte messages) are replaced by the boundary values of the candidate test
+# `1 <= candidate < n`; K outputs (33 / 97-byte messages) stay real, so the state keeps evolving and the loop ends.
+_EDGES = {2: N, 3: N - 1, 4: 1, 5: 0, 6: N + 1, 7: TWO256 - 1}
+
+
+def _edge_hm(salt, log=None):
+    def hm(k, m):
+        out = _hmac.new(k, m, hashlib.sha256).digest()
+        if len(m) == 32:
+            t = (out[-1] + salt) % 8
+            if t in _EDGES:
+                out = _EDGES[t].to_bytes(32, "big")
+            if log is not None:
+                log.append(out)
+        return out
+    return hm
+
+
+class _FnHmac:
+    """stands in for the module `hmac` inside buidl.pecc: new(key, msg, digestmod).digest()"""
+
+    def __init__(self, hm):
+        self._hm = hm
+
+    def new(self, k, m, alg=None):
+        out = self._hm(k, m)
+
+        class _O:
+            def digest(self_inner):
+                return out
+        return _O()
+
+
+def i_det_k_hm(d, z, hm):
+    old = pecc.hmac
+    pecc.hmac = _FnHmac(hm)
+    try:
+        return _mk_key(d).deterministic_k(z)
+    finally:
+        pecc.hmac = old
 
 
 def i_der_parse(b):
@@ -165,12 +233,19 @@ def p_sign(d, z):
 
 
 def p_verify_ref(pv, z, r, s):
-    """verification result == textbook ECDSA validity (reference); exceptions count as 'invalid'."""
-    try:
-        got = i_verify(pv, z, r, s)
-    except Exception:
-        got = False
-    if got not in (True, False):
+    """verification result == textbook ECDSA validity (reference).  A pair that is not a curve point is not a
+    public key (the constructor must refuse it); on a public key, verify has to ANSWER: an exception is a failure."""
+    is_key = pv == [] or ecref.on_curve(tuple(pv))
+    tag, got = _verify_raw(pv, z, r, s)
+    if tag == "ctor":
+        if is_key:
+            return f"S256Point refuses a valid public key: {got!r}"
+        return None
+    if not is_key:
+        return "S256Point accepts a coordinate pair that is not a point of secp256k1 as public key"
+    if tag == "verify":
+        return f"verify raised {got!r} instead of answering (r in range: {1 <= r < N}, s in range: {1 <= s < N})"
+    if got is not True and got is not False:
         return f"verify returned {got!r}"
     want = ecref.ecdsa_verify(tuple(pv) if pv else None, z, r, s)
     if got != want:
@@ -309,8 +384,63 @@ def p_det_k(d, z):
     return None
 
 
+def p_det_k_hm(d, z, salt):
+    """RFC 6979 is stated for every HMAC function: with V outputs replaced by 0, 1, n-1, n, n+1, 2^256-1 the
+    candidate test `1 <= k <= n-1` and the retry step (K = HMAC(K, V || 00), V = HMAC(K, V)) decide the result.
+    deterministic_k with that HMAC must give what the independent RFC 6979 transcription gives with it."""
+    got = i_det_k_hm(d, z, _edge_hm(salt))
+    want = ecref.rfc6979_k(d, (z % TWO256).to_bytes(32, "big"), hm=_edge_hm(salt))
+    if got != want:
+        return f"deterministic_k gives {got}, RFC 6979 with the same HMAC function gives {want}"
+    return None
+
+
+def p_bad_secret(d):
+    """an integer outside [1, n-1] is not a private key: the constructor refuses it (with d = 0 mod n the public
+    key would be the point at infinity and every 'signature' s = z/k independent of the key)"""
+    try:
+        key = PrivateKey(d)
+    except ImplTimeout:
+        raise
+    except Exception:  # noqa
+        return None
+    if 1 <= d < N:
+        return None
+    return f"PrivateKey({d}) is accepted; its public point is {key.point!r}"
+
+
 PROPS = {"sign": p_sign, "verify_ref": p_verify_ref, "sign_k": p_sign_k, "der_rt": p_der_rt,
-         "key_reuse": p_key_reuse, "det_k": p_det_k}
+         "key_reuse": p_key_reuse, "det_k": p_det_k, "det_k_hm": p_det_k_hm, "bad_secret": p_bad_secret}
+
+# ---- time limits.  The engine arms a 60 s (IMPL) / 120 s (PROPS) alarm per case; the calls of this module take
+# milliseconds (DER, HMAC) to a few tenths of a second (one scalar multiplication), so a non-terminating loop in
+# the implementation is cut off much earlier, and a function that hung twice is not waited for again (it is
+# reported as hanging at once): otherwise a hang costs minutes per case, also while the engine shrinks the input.
+_HANGS = {}
+
+
+def _timed(name, fn, limit_s):
+    def run(*args):
+        if _HANGS.get(name, 0) >= 2:
+            raise ImplTimeout()
+        if signal.getitimer(signal.ITIMER_REAL)[0] > limit_s:       # only ever shorten an armed alarm
+            signal.setitimer(signal.ITIMER_REAL, limit_s)
+        try:
+            return fn(*args)
+        except ImplTimeout:
+            _HANGS[name] = _HANGS.get(name, 0) + 1
+            raise
+    run.__doc__ = fn.__doc__
+    return run
+
+
+_LIMITS = {"det_k": 10, "det_k_weak": 10, "rfc6979": 10, "rfc6979_weak": 10, "der": 10, "der_parse": 10,
+           "sign_k": 40, "sign": 40, "pubkey": 40, "verify": 40, "ecdsa_ok": 40}
+_PLIMITS = {"der_rt": 10, "det_k": 10, "det_k_hm": 20, "sign": 60, "sign_k": 60, "verify_ref": 40, "bad_secret": 40}
+for _n, _l in _LIMITS.items():
+    IMPL[_n] = _timed(_n, IMPL[_n], _l)
+for _n, _l in _PLIMITS.items():
+    PROPS[_n] = _timed("prop:" + _n, PROPS[_n], _l)
 
 # ---------------------------------------------------------------- generators
 
@@ -397,6 +527,69 @@ def low_s_gap_case(r, d, k):
     return z, s_raw
 
 
+def solve_key(pt, rr, s, z):
+    """the public key under which (z, rr, s) is valid with the chosen point R = pt:  Q = r^-1 (s R - z G)"""
+    return ecref.mul(pow(rr, -1, N), ecref.add(ecref.mul(s, pt), ecref.neg(ecref.mul(z, ecref.G))))
+
+
+def forge(q, u1, u2):
+    """a valid (z, r, s) for an ARBITRARY public key q (no secret needed): R = u1 G + u2 Q, r = x(R) mod n,
+    s = r / u2, z = u1 s.  None when R is at infinity or r = 0."""
+    pt = ecref.add(ecref.mul(u1, ecref.G), ecref.mul(u2, q))
+    if pt is None or pt[0] % N == 0:
+        return None
+    rr = pt[0] % N
+    s = rr * pow(u2, -1, N) % N
+    return u1 * s % N, rr, s
+
+
+def boundary_r_points(quick):
+    """(label, x, r): points R = lift_x(x) whose r = x mod n sits at an end of [1, n-1] or of the x >= n window"""
+    groups = (("r-small", range(1, 10), 4), ("r-small/x=r+n", range(N + 1, N + 12), 3),
+              ("r-below-n", range(N - 1, N - 10, -1), 3), ("x-below-p", range(P - 1, P - 11, -1), 2))
+    for name, xs, k in groups:
+        got = 0
+        for x in xs:
+            if ecref.lift_x(x) is not None:
+                yield name, x, x % N
+                got += 1
+                if quick and got >= k:
+                    break
+
+
+S_EDGES = [1, N - 1, 2, N - 2, (N - 1) // 2, (N + 1) // 2]
+
+
+def der_class_ints(r):
+    """integers of every byte length 1..32 x leading byte {01, 7e, 7f, 80, 81, ff} x second byte {00, 7f, 80, ff}"""
+    out = []
+    for ln in range(1, 33):
+        for top in (0x01, 0x7e, 0x7f, 0x80, 0x81, 0xff):
+            if ln == 1:
+                out.append(top)
+                continue
+            for second in (0x00, 0x7f, 0x80, 0xff):
+                c = r.random()
+                tail = bytes(ln - 2) if c < 0.15 else b"\xff" * (ln - 2) if c < 0.3 else \
+                    bytes(r.getrandbits(8) for _ in range(ln - 2))
+                out.append(int.from_bytes(bytes([top, second]) + tail, "big"))
+    return out
+
+
+def raw_der(rb, sb):
+    """a DER-shaped string around two RAW integer bodies (canonical or not)"""
+    body = b"\x02" + bytes([len(rb) % 256]) + rb + b"\x02" + bytes([len(sb) % 256]) + sb
+    return b"\x30" + bytes([len(body) % 256]) + body
+
+
+def edge_trace(d, z, salt):
+    """reference run of RFC 6979 with the boundary HMAC: (k, classes of the candidates it went through)"""
+    log = []
+    k = ecref.rfc6979_k(d, z.to_bytes(32, "big"), hm=_edge_hm(salt, log))
+    names = {N: "n", N - 1: "n-1", 1: "1", 0: "0", N + 1: "n+1", TWO256 - 1: "2^256-1"}
+    return k, [names.get(int.from_bytes(c, "big"), "real") for c in log[2::2]]
+
+
 def der_malformed(r, enc):
     for cut in range(len(enc)):
         yield enc[:cut]
@@ -433,7 +626,11 @@ def rfc6979_stages(d, z):
 
 
 def generate(ctx):
+    # cheap predicate cases first: when a change breaks many correspondence cases at once the engine stops early,
+    # and the failing INPUT must already have been seen by a predicate
+    yield from _boundaries_cheap(ctx)
     yield from _generate(ctx)
+    yield from _boundaries(ctx)
     r = ctx.rng
     # ---- boundary class: byte strings with leading zero bytes inside the RFC 6979 derivation
     # (a) the 32-byte forms of the secret and of the digest start with 1..31 zero bytes
@@ -469,6 +666,124 @@ def generate(ctx):
         if nzb == 1 and name in ("K2", "T"):
             yield ("corr", "sign", [d, z])
             yield ("prop", "sign", [d, z])
+
+
+def _vcases(ctx, label, tup):
+    ctx.label("verify/" + label)
+    yield ("corr", "verify", list(tup))
+    yield ("corr", "ecdsa_ok", list(tup))
+    yield ("prop", "verify_ref", list(tup))
+
+
+def _boundaries_cheap(ctx):
+    """constructed inputs on both sides of every comparison in deterministic_k / der (no curve arithmetic)"""
+    r = ctx.rng
+    # ---- RFC 6979 nonce: the property predicate on the whole boundary cross product
+    for d in SECRETS:
+        for z in DIGESTS:
+            yield ("prop", "det_k", [d, z])
+    # ---- RFC 6979 candidate test and retry step, driven by an HMAC with boundary outputs
+    for i in range(ctx.n(160, 4000)):
+        d, z, salt = rscalar(r), rdigest(r), i % 8
+        k, classes = edge_trace(d, z, salt)
+        for c in classes[:-1]:
+            ctx.label("det_k_hm/candidate-%s-rejected" % c)
+        ctx.label("det_k_hm/candidate-%s-accepted" % classes[-1])
+        ctx.label("det_k_hm/retries=%d" % min(len(classes) - 1, 3))
+        yield ("prop", "det_k_hm", [d, z, salt])
+
+    # ---- DER: every byte length x leading byte class x second byte class, in both positions
+    vals = der_class_ints(r)
+    perm = vals[:]
+    r.shuffle(perm)
+    for a, b in zip(vals, perm):
+        ctx.label("der/int-length-and-leading-byte-classes")
+        yield ("corr", "der", [a, b])
+        yield ("prop", "der_rt", [a, b])
+        yield ("corr", "der_parse", [ecref.der(a, b)])
+    for a in (TWO256 + 1, 2 ** 263, 2 ** 264 - 1, 2 ** 264):           # 33 bytes and more: to_bytes refuses
+        yield ("corr", "der", [a, 5])
+        yield ("corr", "der", [5, a])
+        ctx.label("der/error-branch")
+    # parser on bodies the encoder never emits: superfluous zero bytes, 33 / 34 byte integers, top bit set
+    bodies = [b"\x00" * k + bytes([t]) + ctx.rbytes(n) for k in (0, 1, 2) for t in (0x01, 0x7f, 0x80, 0xff)
+              for n in (0, 1, 30, 31, 32, 33)]
+    for rb in bodies:
+        sb = r.choice(bodies)
+        yield ("corr", "der_parse", [raw_der(rb, sb)])
+        yield ("corr", "der_parse", [raw_der(sb, rb)])
+        ctx.label("der_parse/non-canonical-integer-bodies")
+
+
+
+def _boundaries(ctx):
+    """constructed inputs on both sides of every comparison in sign / verify"""
+    r = ctx.rng
+    quick = ctx.tier == "quick"
+    # ---- chosen nonce: raw s on both sides of n/2, of 1 and of n - 1
+    half = N // 2
+    for s_raw in (half - 1, half, half + 1, half + 2, 1, 2, N - 1, N - 2, 2 ** 255 - 1, 2 ** 255, 2 ** 255 + 1):
+        d, k = rscalar(r), r.randrange(1, N)
+        z = (s_raw * k - ecref.mul(k, ecref.G)[0] * d) % N
+        if r.random() < 0.5 and z + N < TWO256:
+            z += N
+        ctx.label("sign_k/raw-s-at-a-boundary")
+        yield ("corr", "sign_k", [d, z, k])
+        yield ("prop", "sign_k", [d, z, k])
+
+    # ---- verify: r at the ends of [1, n-1] and of the x(R) >= n window (public key solved for)
+    for i, (name, x, rr) in enumerate(boundary_r_points(quick)):
+        pt = ecref.lift_x(x)
+        if i % 2:
+            pt = ecref.neg(pt)
+        s = S_EDGES[i % len(S_EDGES)] if i % 3 else r.randrange(1, N)
+        z = r.choice([0, N - 1, TWO256 - 1]) if i % 4 == 0 else r.getrandbits(256)
+        q = list(solve_key(pt, rr, s, z))
+        yield from _vcases(ctx, name + "/valid", (q, z, rr, s))
+        yield from _vcases(ctx, name + "/r-1", (q, z, rr - 1, s))
+        yield from _vcases(ctx, name + "/r+1", (q, z, rr + 1, s))
+        if x != rr:
+            yield from _vcases(ctx, name + "/r=x", (q, z, x, s))
+        elif x + N < P:
+            yield from _vcases(ctx, name + "/r+n", (q, z, x + N, s))
+    # ---- verify: s at the ends of [1, n-1] and around n/2 (textbook ECDSA accepts high s); z solved for
+    for s0 in S_EDGES[1:]:
+        d, k = rscalar(r), rscalar(r)
+        rr = ecref.mul(k, ecref.G)[0] % N
+        z = (s0 * k - rr * d) % N
+        q = list(ecref.mul(d, ecref.G))
+        yield from _vcases(ctx, "s-edge/valid", (q, z, rr, s0))
+        yield from _vcases(ctx, "s-edge/s+1", (q, z, rr, s0 + 1))
+        yield from _vcases(ctx, "s-edge/n-s", (q, z, rr, N - s0))
+    # ---- verify: u1 G + u2 Q at infinity (z = -r d), and u1 G = u2 Q (z = r d: the doubling branch of the addition)
+    for _ in range(ctx.n(2, 20)):
+        d, rr, s = rscalar(r), r.randrange(1, N), r.randrange(1, N)
+        q = list(ecref.mul(d, ecref.G))
+        yield from _vcases(ctx, "R-at-infinity", (q, (-rr * d) % N, rr, s))
+        k = r.randrange(1, N)
+        rr = ecref.mul(k, ecref.G)[0] % N
+        s = 2 * rr * d * pow(k, -1, N) % N
+        yield from _vcases(ctx, "u1G=u2Q/valid", (q, rr * d % N, rr, s))
+        yield from _vcases(ctx, "u1G=u2Q/s+1", (q, rr * d % N, rr, (s + 1) % N))
+    # ---- verify: structured public keys (tiny x, x next to p, G, -G, 2G) with tuples forged from (u1, u2)
+    keys = [("x=1", ecref.lift_x(1)), ("x=2", ecref.neg(ecref.lift_x(2))), ("x=3", ecref.lift_x(3)),
+            ("x=p-3", ecref.lift_x(P - 3)), ("G", ecref.G), ("-G", ecref.neg(ecref.G)), ("2G", ecref.mul(2, ecref.G))]
+    if quick:
+        keys = keys[:1] + r.sample(keys[1:], 3)
+    for name, q in keys:
+        f = None
+        while f is None:
+            u1 = 0 if name == "x=1" else r.randrange(1, N)       # u1 = 0: a valid tuple with z = 0
+            f = forge(q, u1, r.randrange(1, N))
+        z, rr, s = f
+        yield from _vcases(ctx, "key-" + name + "/valid", (list(q), z, rr, s))
+        yield from _vcases(ctx, "key-" + name + "/z+1", (list(q), z + 1, rr, s))
+        yield from _vcases(ctx, "key-" + name + "/neg-key", ([q[0], P - q[1]], z, rr, s))
+    # coordinates that are field elements only after reduction: not public keys
+    for pv in ([ecref.GX + P, ecref.GY], [ecref.GX, ecref.GY + P], [ecref.GX - P, ecref.GY], [ecref.GX, ecref.GY - P]):
+        yield ("corr", "verify", [pv, 1, 1, 1])
+        yield ("prop", "verify_ref", [pv, 1, 1, 1])
+        ctx.label("verify/key-coordinate-not-reduced")
 
 
 def _generate(ctx):
@@ -527,6 +842,7 @@ def _generate(ctx):
     for d in BAD_SECRETS:
         yield ("corr", "sign", [d, 12345])
         yield ("corr", "pubkey", [d])
+        yield ("prop", "bad_secret", [d])
         ctx.label("sign/bad-secret")
     for z in BAD_DIGESTS:
         yield ("corr", "sign", [3, z])
